@@ -27,7 +27,7 @@ from glom.grouping import Group, First, Max
 from ..runner import Sub, Mismatch, HarnessBug
 
 PROPERTY = 'C20'
-RULE = ('pool of 16 evaluations covering scope bindings, Vars/globals, modes, Group accumulators, argument-mode containers, '
+RULE = ('pool of 20 evaluations covering scope bindings, Vars/globals, modes, Group accumulators, argument-mode containers, '
         'shared spec objects, a shared scope= mapping and a shared Glommer, successful and failing (error trace text compared); '
         'all pairs x all interleavings and all triples x all interleavings (2 yield points each) are enumerated. '
         'Non-trivial = a schedule with >= 2 context switches, or a nesting of depth >= 2.')
@@ -144,6 +144,9 @@ class Raiser(object):
         return 'Raiser(%s)' % self.name
 
 
+POOL_SIZE = 20
+
+
 def make_pool():
     """fresh pool: list of (name, target factory, spec, how) ; several entries share spec objects on purpose"""
     ctl = Ctl()
@@ -153,6 +156,7 @@ def make_pool():
     argspec = Call(echo, args=([T['a'], Spec(y('arg1')), Spec(y('arg2'))],), kwargs={'k': {'d': Spec(y('kw1'))}})
     vars_spec = (S(v=Vars()), [(y('v1'), A.v.last)], S.v.last)
     group_spec = Group({y('gk', ret=lambda t: t % 2): [y('gv')]})
+    spec_obj = Spec((y('sg1'), {'tmp': Coalesce(S.tmp, default='unset'), 's': 's'}))
     pool = [
         ('bind-zero', lambda: {'a': {'b': 1}}, (S(k=Val('zero')), y('a1'), 'a', y('a2'), {'v': 'b', 'k': S.k}), 'glom'),
         ('fill-error', lambda: {'a': [1, 2, 3]}, (Fill(T), y('b1'), 'a', [y('b2')], S(k=Val('one')), y('b3'), 'nope'), 'glom'),
@@ -171,6 +175,12 @@ def make_pool():
         ('glommer-error', lambda: {'g': 5}, (y('h1'), 'g', Coalesce([y('h2')], Match(str))), ('glommer', glommer)),
         ('raise-net-timeout', lambda: {'r': 1}, (y('n1'), {'x': Raiser(ctl, 'net', NetTimeout)}), 'glom'),
         ('raise-db-timeout', lambda: {'r': 2}, (y('d1'), {'x': Raiser(ctl, 'db', DbTimeout)}), 'glom'),
+        # ONE Spec object evaluated through its .glom() method, once with a per-call scope and once without
+        ('specglom-bound', lambda: {'s': 1}, spec_obj, ('specglom', {'tmp': 'bound-by-this-call'})),
+        ('specglom-plain', lambda: {'s': 2}, spec_obj, ('specglom', {})),
+        # the same operation failing on the same type of value at two different places
+        ('unregistered-deep', lambda: {'a': {'x': 5}}, ('a', y('u1'), 'x', [T]), 'glom'),
+        ('unregistered-shallow', lambda: {'b': 7}, (y('u2'), 'b', [T]), 'glom'),
     ]
     return ctl, pool
 
@@ -182,6 +192,8 @@ def evaluate(entry):
             r = glom.glom(tfac(), spec)
         elif how[0] == 'scope':
             r = glom.glom(tfac(), spec, scope=how[1])
+        elif how[0] == 'specglom':
+            r = spec.glom(tfac(), scope=dict(how[1]))
         else:
             r = how[1].glom(tfac(), spec)
         return ('ok', ADDR.sub('', repr(r)))
@@ -206,8 +218,9 @@ def isolated():
         return _ISO
     iso_local = {}
     for rnd in range(2):
-        ctl, pool = make_pool()
-        for i, entry in enumerate(pool):
+        for i in range(POOL_SIZE):
+            ctl, pool = make_pool()         # a fresh pool per entry: "alone" means no other evaluation came before
+            entry = pool[i]
             counter = Sched([])
             ctl.sched = counter
             ctl.local.me = i
@@ -219,8 +232,26 @@ def isolated():
                 iso_local[i] = (out, n)
             elif iso_local[i] != (out, n):
                 raise HarnessBug('pool entry %s is not deterministic in isolation: %r vs %r' % (entry[0], iso_local[i], (out, n)))
+    # what an entry reports when run alone is known by construction for some entries: a baseline that already deviates
+    # (state carried over from an EARLIER, unrelated evaluation in this process) is a violation by itself
+    for i, entry in enumerate(make_pool()[1]):
+        want = EXPECT_TEXT.get(entry[0])
+        if want is not None and want not in iso_local[i][0][-1]:
+            _BASELINE_BAD.append(Mismatch('foreign-state', 'evaluation %s run alone must report %r; it reports %r (state left behind by an '
+                                          'earlier evaluation of another entry)' % (entry[0], want, iso_local[i][0][-1][-200:])))
     _ISO.update(iso_local)
     return _ISO
+
+
+_BASELINE_BAD = []
+EXPECT_TEXT = {'unregistered-deep': "(at ['a', 'u1', 'x'])", 'unregistered-shallow': "(at ['u2', 'b'])",
+               'specglom-plain': "'tmp': 'unset'", 'specglom-bound': "'tmp': 'bound-by-this-call'"}
+
+
+def assert_baseline():
+    isolated()
+    if _BASELINE_BAD:
+        raise _BASELINE_BAD[0]
 
 
 def run_schedule(ids, word, limits):
@@ -272,6 +303,7 @@ def switches(word):
 
 
 def check_schedule(recipe, ctx):
+    assert_baseline()
     iso = isolated()
     ids, word = recipe['ids'], recipe['word']
     res, trace = run_schedule(ids, word, recipe['limits'])
@@ -289,12 +321,13 @@ def check_schedule(recipe, ctx):
 # free-running threads
 
 def gen_free(draw):
-    n = 16
+    n = POOL_SIZE
     return {'assign': [draw(st.lists(st.integers(0, n - 1), min_size=2, max_size=4)) for _ in range(8)],
             'iterations': draw(st.sampled_from([20, 40]))}
 
 
 def check_free(recipe, ctx):
+    assert_baseline()
     iso = isolated()
     ctl, pool = make_pool()
     ctx.nontrivial(True)
@@ -325,7 +358,7 @@ def check_free(recipe, ctx):
 # re-entrancy
 
 def gen_reentrant(draw):
-    n = 16
+    n = POOL_SIZE
     def node(d):
         return {'entry': draw(st.integers(0, n - 1)),
                 'via': draw(st.sampled_from(['glom', 'spec', 'glommer'])),
@@ -337,6 +370,7 @@ def gen_reentrant(draw):
 def check_reentrant(recipe, ctx):
     """re-entrancy is injected through the yield probes the pool specs already contain, so every spec object
     is exactly the one that is evaluated alone: outcomes (incl. trace text) must be identical"""
+    assert_baseline()
     iso = isolated()
     ctl, pool = make_pool()
     observed = []
@@ -403,6 +437,8 @@ def check_reentrant(recipe, ctx):
                     return glom.glom(tfac_i(), spec_i)
                 if how_i[0] == 'scope':
                     return glom.glom(tfac_i(), spec_i, scope=how_i[1])
+                if how_i[0] == 'specglom':
+                    return spec_i.glom(tfac_i(), scope=dict(how_i[1]))
                 return how_i[1].glom(tfac_i(), spec_i)
             except Exception as e:
                 kept.append((e, ADDR.sub('', str(e))))
@@ -433,6 +469,8 @@ def check_reentrant(recipe, ctx):
                         return glom.glom(tfac_i(), spec_i)
                     if how_i[0] == 'scope':
                         return glom.glom(tfac_i(), spec_i, scope=how_i[1])
+                    if how_i[0] == 'specglom':
+                        return spec_i.glom(tfac_i(), scope=dict(how_i[1]))
                     return how_i[1].glom(tfac_i(), spec_i)
                 except Exception as e:
                     if look:
